@@ -128,14 +128,20 @@ def run_script(script):
     steps, tags = [], set()
 
     def res_of(ar):
-        # what a caller sees: the result as `get()` reports it (a value stored after an
-        # exception wins there, although `.exception` still shows the old exception)
+        # what a caller sees.  A completed result must be coherent: either `get()` returns a value and
+        # `.exception` is None, or `get()` raises that exception.  gevent lets a second set()/set_exception()
+        # leave a mixed state (value and exception both present: `get()`/`successful()` go by the value, while
+        # `.exception` — which scales' own combinators branch on — reports the failure); such a result is
+        # reported as an outcome no script produces, so that the specification judges it.
         if not ar.ready():
             return 'pending'
         try:
             v = ar.get(block=False)
         except BaseException as ex:
             return ['err', ex.code if isinstance(ex, (E, EB)) else 999999]
+        if ar.exception is not None:
+            tags.add('incoherent-result')
+            return ['err', 999999]
         if isinstance(v, list):
             return ['vals', [x if isinstance(x, int) else None for x in v]]
         if isinstance(v, int) and not isinstance(v, bool):
